@@ -108,7 +108,7 @@ def run_cli(h, src, allow_text, drop_unsupported):
 
 def cases(tier, seed):
     cs = []
-    fam = pool.subset(pool.family_templates(tier), tier, seed + 2, every=6, thorough_every=2)
+    fam = pool.subset(pool.family_templates(tier), tier, seed + 2, every=6, thorough_every=2, exclude=("C05:mixed_all",))  # > 500 paths with the round contract: C05/C08 thorough keep it
     for k in fam:
         nds = [3] if tier == "quick" else [0, 3]
         if k.startswith("special:"):
@@ -174,7 +174,7 @@ def describe(tier):
             "path; numeric clauses are validity queries (kept-group opacity strictly inside (0,1); every path-data number is "
             "round_n(.) of something by term shape or a literal with <= n decimals)."
         ),
-        "bounds": {"templates": "special + unsupported templates x options; a seed-rotated sixth (quick) / half (thorough) of the C02-C06 families, without the heavy C06 matrix templates and C02:matrix_chain", "ndigits": "3 (specials also 0; thorough 0,3 and 6 for specials)"},
+        "bounds": {"templates": "special + unsupported templates x options; a seed-rotated sixth (quick) / half (thorough) of the C02-C06 families, without the heavy C06 matrix templates, C02:matrix_chain and C02:four_levels", "ndigits": "3 (specials also 0; thorough 0,3 and 6 for specials)"},
         "outside": PIPE_OUTSIDE + ["absl flag parsing of the CLI", "that Skia only emits M/L/Q/C/Z verbs (contract)"],
         "stubs": common.mods().stubs + FP.CONTRACT,
         "assumptions": FP.CONTRACT + ["floats as reals", "round contract"],
